@@ -610,6 +610,157 @@ def mon_c04(case, obs):
     return None
 
 
+# ----------------------------------------------------------------------------- C06
+
+class Prog:
+    """a straight-line main program plus subroutines placed at fresh addresses"""
+
+    def __init__(self, r, base):
+        self.r = r
+        self.mem = []
+        self.next_sub = base + 0x1000
+        self.steps = 0
+
+    def block(self, depth, kinds):
+        r = self.r
+        code = []
+        for _ in range(r.randrange(1, 3) if depth > 0 else 1):
+            k = r.choice(kinds) if depth > 0 else 'leaf'
+            if k == 'leaf':
+                # clobber a saved register or scratch so that restores are observable
+                reg_no = r.choice([0, 1, 2])
+                code += ins(OP['MOVW'], immw(r.randrange(1 << 32)), reg(reg_no))
+                self.steps += 1
+            elif k == 'push':
+                src = r.choice([immw(r.randrange(1 << 32)), reg(r.randrange(9)), lit(r.randrange(64))])
+                code += ins(OP['PUSHW'], src)
+                self.steps += 1
+                code += self.block(depth - 1, kinds)
+                code += ins(OP['POPW'], reg(r.choice([0, 1, 2])))
+                self.steps += 1
+            elif k == 'save':
+                n = r.choice([3, 4, 5, 6, 7, 8, 9])
+                code += ins(OP['SAVE'], reg(n))
+                self.steps += 1
+                # clobber registers the RESTORE must bring back
+                for rr in range(n, 9):
+                    if r.random() < 0.6:
+                        code += ins(OP['MOVW'], immw(r.randrange(1 << 32)), reg(rr))
+                        self.steps += 1
+                code += self.block(depth - 1, kinds)
+                code += ins(OP['RESTORE'], reg(n))
+                self.steps += 1
+            elif k in ('jsb', 'bsbh', 'bsbb'):
+                sub = self.next_sub
+                self.next_sub += 0x400
+                body = self.block(depth - 1, kinds) + [0x78]
+                self.steps += 1
+                self.mem.append((sub, body))
+                if k == 'jsb':
+                    code += ins(OP['JSB'], absa(sub))
+                else:
+                    code += ['BSB', k, sub]
+                self.steps += 1
+            elif k == 'call':
+                sub = self.next_sub
+                self.next_sub += 0x400
+                body = self.block(depth - 1, kinds) + [0x08]
+                self.steps += 1
+                self.mem.append((sub, body))
+                nargs = r.randrange(0, 3)
+                for _ in range(nargs):
+                    code += ins(OP['PUSHW'], immw(r.randrange(1 << 32)))
+                    self.steps += 1
+                code += ins(OP['CALL'], bdisp(12, (-4 * nargs) & 0xff), absa(sub))
+                self.steps += 1
+        return code
+
+
+def resolve(code, base):
+    """replace the ['BSB', kind, target] placeholders by BSBH / BSBB with the right displacement"""
+    out = []
+    i = 0
+    while i < len(code):
+        if code[i] == 'BSB':
+            kind, tgt = code[i + 1], code[i + 2]
+            here = base + len(out)
+            d = tgt - here
+            if kind == 'bsbb' and -128 <= d <= 127:
+                out += [0x37, d & 0xff]
+            else:
+                out += [0x36] + le(d & 0xffff, 2) if -32768 <= d <= 32767 else ins(OP['JSB'], absa(tgt))
+            i += 3
+        else:
+            out.append(code[i])
+            i += 1
+    return out
+
+
+def gen_c06(tier, seed):
+    g = G('q', seed)
+    r = g.rnd
+    n = 500 if tier == 'quick' else 12000
+    maxdepth = 6 if tier == 'quick' else 24
+    kinds = ['leaf', 'push', 'save', 'jsb', 'bsbh', 'call', 'push', 'save', 'call']
+    for i in range(n):
+        p = Prog(r, PC0)
+        depth = r.randrange(1, maxdepth + 1) if r.random() < 0.8 else maxdepth
+        main = p.block(min(depth, 12) if tier == 'quick' else depth, kinds)
+        main = resolve(main, PC0)
+        if len(main) > 0xf00:
+            continue
+        mem = [(a, resolve(b, a)) for a, b in p.mem]
+        psw = psw_of(r.choice(allflags()))
+        regs = rnd_regs(r, psw)
+        sp = r.choice([STK, STK + 0x100, 0x7f0000, 0x7ffe00 if depth < 4 else STK, 0x700800])
+        regs[12] = sp
+        regs[9] = r.choice([sp - 0x40, STK + 0x4000, r.randrange(1 << 30) * 4])
+        regs[10] = r.choice([sp - 0x80, STK + 0x5000, r.randrange(1 << 30) * 4])
+        end = PC0 + len(main)
+        ops = setup_ops(regs, mem, main + [0x70] * 4) + ['k:3e8', 'run:%x' % p.steps, 'gr', 'rw:%x' % ((sp - 4) & ~3), 'rw:%x' % ((sp - 8) & ~3)]
+        g.add(ops + ['X:%x' % end], 'nest-depth-%d' % min(depth, 8))
+    # single instructions at the edges of RAM and with odd pointers (faults are compared with the model)
+    for _ in range(200 if tier == 'quick' else 4000):
+        psw = psw_of(r.choice(allflags()))
+        regs = rnd_regs(r, psw)
+        regs[12] = r.choice([0x7ffffc, 0x7ffff8, 0x7fffe4, 0x700000, 0x700004, 0x6ffffc, 0x800000, STK + 1, STK + 2, 0x20000, 0xfffffffc, 0])
+        regs[9] = r.choice([regs[12], 0x700000, 0x70001c, 0x700018, 0x7ffffc, STK + 0x20, 0x10, 0xfffffffc])
+        code = r.choice([ins(OP['PUSHW'], immw(0x11223344)), ins(OP['POPW'], reg(1)), ins(OP['SAVE'], reg(r.choice([3, 6, 9]))),
+                         ins(OP['RESTORE'], reg(r.choice([3, 6, 9]))), ins(OP['CALL'], bdisp(12, 0xf8), absa(0x700400)), [0x08], [0x78],
+                         ins(OP['JSB'], absa(0x700400)), [0x37, 0x10], ins(OP['PUSHAW'], absa(0x12345678)),
+                         ins(OP['POPW'], bdisp(12, 0xf8)), ins(OP['POPW'], absa(0x100)), ins(OP['PUSHW'], bdisp(12, 0xfc))])
+        g.add(setup_ops(regs, [(STK - 0x40, [r.randrange(256) for _ in range(0x80)])], code + [0x70] * 2) + ['st', 'gr', 'rw:%x' % (regs[12] & 0xfffffc if regs[12] < 0x800000 else 0x700000)], 'edge')
+    return g.result('Balanced nests generated from B ::= leaf | B B | PUSHW v; B; POPW | SAVE %rN; clobber; B; RESTORE %rN | JSB/BSBH/BSBB sub(B; RSB) | '
+                    'PUSHW args; CALL -4n(%sp), sub(B; RET), to the stated depth, with random stack/frame/argument pointers in RAM and random '
+                    'registers, run to completion; plus single stack / linkage instructions with pointers at the edges of RAM, unaligned, '
+                    'in ROM and in unmapped space.')
+
+
+def mon_c06(case, obs):
+    """a balanced nest returns with PC at the end of the main program and SP, AP, FP, r3-r8 as they started"""
+    toks = case.split()[1:]
+    if not toks or not toks[-1].startswith('X:'):
+        return None
+    end = int(toks[-1][2:], 16)
+    out, fin = monitors.split_obs(obs)
+    regs = {}
+    for t in toks:
+        f = t.split(':')
+        if f[0] == 'r':
+            regs[int(f[1], 16)] = int(f[2], 16)
+    ri = toks.index('gr')
+    if out[ri - 1] != 'ok':
+        return 'balanced nest did not run to completion: %s' % out[ri - 1]
+    fr = [int(x, 16) for x in out[ri][2:].split(',')]
+    if fr[15] != end:
+        return 'balanced nest ended at PC %x, expected %x' % (fr[15], end)
+    for i in (3, 4, 5, 6, 7, 8, 9, 10, 12):
+        if fr[i] != regs[i]:
+            return 'after a balanced nest register %d is %x, was %x' % (i, fr[i], regs[i])
+    return None
+
+
+PROPS['C06'] = {'gen': gen_c06, 'monitors': [mon_c06]}
 PROPS['C05'] = {'gen': gen_c05, 'monitors': [mon_c05]}
 PROPS['C02'] = {'gen': gen_c02, 'monitors': []}
 PROPS['C03'] = {'gen': gen_c03, 'monitors': []}
